@@ -490,19 +490,21 @@ func (g *Gen) appendCall(in *ssa.Call, common *ssa.CallCommon, args []*SV, st *S
 	g.addFact("(and (>= " + ncap + " " + newlen + ") (<= " + ncap + " 4611686018427387904))")
 	arrS := "(select " + E + " (s-ref " + s.S + "))"
 	if cnt, ok := varargsLen(common.Args[1]); ok && cnt <= 8 && !tIsString {
-		// in place
+		// both cases write the new elements right after the old ones; on growth the (fresh) backing
+		// array is a copy of the old one and keeps the slice's offset (an offset is not observable;
+		// elements between len and cap of the new array are not modelled as zero)
 		inpl := arrS
-		grown := g.freshConst("app.arr", "(Array Int "+es+")")
-		g.uses["quant"] = true
-		g.addFact(fmt.Sprintf("(forall ((j! Int)) (! (=> (and (<= 0 j!) (< j! %s)) (= (select %s j!) (select %s (+ (s-off %s) j!)))) :pattern ((select %s j!))))", slen, grown, arrS, s.S, grown))
-		grownT := grown
 		for j := int64(0); j < cnt; j++ {
 			ej := fmt.Sprintf("(select (select %s (s-ref %s)) (+ (s-off %s) %d))", E, t.S, t.S, j)
 			inpl = fmt.Sprintf("(store %s (+ (s-off %s) %s %d) %s)", inpl, s.S, slen, j, ej)
-			grownT = fmt.Sprintf("(store %s (+ %s %d) %s)", grownT, slen, j, ej)
 		}
-		newE := "(ite " + fits + " (store " + E + " (s-ref " + s.S + ") " + inpl + ") (store " + E + " " + r + " " + grownT + "))"
+		an := g.freshConst("app.arr", "(Array Int "+es+")")
+		g.addFact("(= " + an + " " + inpl + ")")
+		newE := "(ite " + fits + " (store " + E + " (s-ref " + s.S + ") " + an + ") (store " + E + " " + r + " " + an + "))"
 		st.heaps[k] = g.nameHeap(k, hs, newE)
+		g.trusted["append: on growth the new backing array is modelled as a copy of the old one (spare capacity not zeroed)"] = true
+		g.define(in, fmt.Sprintf("(ite %s (mk-slice (s-ref %s) (s-off %s) %s (s-cap %s)) (mk-slice %s (s-off %s) %s (+ (s-off %s) %s)))", fits, s.S, s.S, newlen, s.S, r, s.S, newlen, s.S, ncap))
+		return
 	} else {
 		g.uses["quant"] = true
 		newE := g.freshConst("app.E", hs)
@@ -615,7 +617,7 @@ func (g *Gen) intrinsic(in *ssa.Call, key string, common *ssa.CallCommon, args [
 	case "unicode/utf8.RuneCountInString":
 		g.uses["str"] = true
 		fn := "ext.runecount"
-		g.declareFun(fn, []string{"String"}, "Int")
+		g.declRuneCount()
 		g.trusted["utf8.RuneCountInString modelled as uninterpreted with 0 <= n <= len"] = true
 		if in != nil {
 			sv := g.define(in, "("+fn+" "+args[0].S+")")
